@@ -19,6 +19,7 @@ case "$PKGDIR" in
   s3mem|s3mem_test) SUB=backend/s3mem ;;
   s3afero|s3afero_test) SUB=backend/s3afero ;;
   s3bolt|s3bolt_test) SUB=backend/s3bolt ;;
+  main) SUB=cmd/gofakes3 ;;
   *) SUB=. ;;
 esac
 W=/tmp/seedverify-$NAME
